@@ -205,8 +205,11 @@ def run_lines(cmd, lines, cwd=None, timeout=3600, restart_on_death=True):
         replies.extend(got)
         replies.append("abort timeout (no answer within the harness' per-request limit)" if p.returncode == 124 else "abort rc=%d" % p.returncode)
         deaths += 1
+        timeouts = sum(1 for r_ in replies if r_.startswith("abort timeout"))
         i += len(got) + 1
-        if not restart_on_death or deaths > 200:
+        # a tree on which many requests do not answer would otherwise cost 20 s per request: after a few, the rest is not run
+        # (each unanswered request is already a reported case)
+        if not restart_on_death or deaths > 200 or timeouts >= 6:
             replies.extend(["abort (not run)"] * (len(lines) - len(replies)))
             break
     return replies
